@@ -87,6 +87,23 @@ func ExploreShared(p *prog.Program) {
 			}
 		}
 	}
+	for fn := range R {
+		if !p.InModule(fn) {
+			continue
+		}
+		for _, b := range fn.Blocks {
+			for _, in := range b.Instrs {
+				if lk, ok := in.(*ssa.Lookup); ok && !lk.CommaOk {
+					if _, isMap := lk.X.Type().Underlying().(*types.Map); isMap {
+						switch lk.Type().Underlying().(type) {
+						case *types.Pointer, *types.Interface, *types.Map, *types.Signature:
+							fmt.Printf("LOOKUP %s in %s %s\n", lk.Type(), prog.Name(fn), p.InstrPos(in))
+						}
+					}
+				}
+			}
+		}
+	}
 	sort.Strings(out)
 	for _, l := range out {
 		fmt.Println(l)
